@@ -1,11 +1,14 @@
 #!/bin/bash
-# usage: ./seedtest2.sh <name> <patch.diff> <check id>...  — like seedtest.sh, but in a scratch worktree (VERIF_REPO), /repo untouched
+# usage: ./seedtest2.sh <name> <patch.diff> <check id>...
+# like seedtest.sh, but against a scratch worktree of /repo (VERIF_REPO) and from a scratch copy of /verif,
+# so that /repo, the committed evidence and the working tree being edited are all untouched. Several may run at once.
 name="$1"; patch="$2"; shift 2
 export GOFLAGS=-mod=mod GOPROXY=off GOSUMDB=off GOTOOLCHAIN=local
-wt=/tmp/wt/st-$name
+wt=/tmp/wt/st-$name; vc=/tmp/wt/v-$name
 git -C /repo worktree remove --force "$wt" 2>/dev/null
 git -C /repo worktree add -q --detach "$wt" HEAD || exit 2
-trap 'git -C /repo worktree remove --force "$wt" 2>/dev/null' EXIT
+trap 'git -C /repo worktree remove --force "$wt" 2>/dev/null; rm -rf "$vc"' EXIT
+rsync -a --delete --exclude .git --exclude bin --exclude replays --exclude .scratch --exclude evidence "$(dirname "$(readlink -f "$0")")/" "$vc/" || exit 2
 ( cd "$wt" && git apply "$patch" ) || { echo "$name: patch does not apply"; exit 2; }
 ( cd "$wt" && go build ./... ) || { echo "$name: does not compile"; exit 2; }
 if [ -z "$SKIP_SUITE" ]; then
@@ -14,7 +17,8 @@ if [ -z "$SKIP_SUITE" ]; then
 fi
 unset GOFLAGS
 for c in "$@"; do
-  s=$(date +%s); out=$(VERIF_REPO="$wt" VERIF_ROOT_EVID= ./check.sh $c ${TIER:-quick} 2>&1); rc=$?
+  s=$(date +%s); out=$(VERIF_REPO="$wt" "$vc/check.sh" $c ${TIER:-quick} 2>&1); rc=$?
   echo "$name:  check $c -> exit $rc ($(( $(date +%s) - s ))s) $(echo "$out" | grep -c '^VIOLATION') violation(s)"
   echo "$out" | grep '^  ' | cut -c1-240 | head -3
+  [ $rc = 2 ] && echo "$out" | tail -5
 done
